@@ -1,3 +1,27 @@
-Require Import Model.Base Corr.Common Corr.Draw.
-Definition check (x : pcase * pout) : Z := code (corr_exact (fst x) (snd x)) (all_good (verdict_of x)).
-Definition model_out := Corr.Draw.model_out.
+(* Corr/C01.v — drawing programs at the Interface trait boundary (L1) and below the real transports (L2) *)
+Require Import Model.Base Corr.Common Corr.Draw Corr.L2.
+Inductive c1case := C1L1 (pc : pcase) | C1L2 (pc : pcase).
+Inductive c1out := C1O1 (p : pout) | C1O2 (p : pout2).
+
+(* pin level: a solid fill is seen as a stream of equal pixels, so the final picture is compared instead of
+   the write history (the L1 cases compare the ordered history) *)
+Definition good_l2 (v : verdict) : bool :=
+  v_results_ok v && v_framing v && v_no_anomaly v && v_picture v && v_confined v && v_obs v && v_madctl v
+  && v_one_window v && v_nondraw_clean v.
+
+Definition check (x : c1case * c1out) : Z :=
+  match x with
+  | (C1L1 pc, C1O1 p) => code (corr_exact pc p) (all_good (judge pc p))
+  | (C1L2 pc, C1O2 p) =>
+      match model_of_id (pc_model pc) with
+      | Some m => code (match run_pcase2 pc with Some mo => pout2_eqb mo p | None => false end)
+                       (good_l2 (judge pc (decode_pout2 pc m p)))
+      | None => 3
+      end
+  | _ => 3
+  end.
+Definition model_out (c : c1case) :=
+  match c with
+  | C1L1 pc => option_map C1O1 (run_pcase pc)
+  | C1L2 pc => option_map C1O2 (run_pcase2 pc)
+  end.
